@@ -122,6 +122,7 @@ class StateGraphMonitor(Monitor):
         self.last = {}        # (nick, inc) -> state name
         self.entered = {}     # (nick, inc) -> set of states published while declaring itself Master
         self.per_step = {}
+        self.cycles = {}      # (nick, inc) -> [(start time, states published as Master since its last ELECTION)]
         self.transitions = set()
         run.world.on_hook('send_state_event', self.on_state)
 
@@ -134,6 +135,12 @@ class StateGraphMonitor(Monitor):
         mine = payload['identifier']
         if master == mine:
             self.entered.setdefault(key, set()).add(state)
+            # cycles of the Master: every ELECTION (or earlier state) opens a new one
+            cycles = self.cycles.setdefault(key, [(w.now, set())])
+            if state in ('OFF', 'SYNCHRONIZATION', 'ELECTION') and state != prev:
+                cycles.append((w.now, set()))
+                del cycles[:-6]
+            cycles[-1][1].add(state)
         if state == prev:
             return
         self.last[key] = state
@@ -169,6 +176,18 @@ class StateGraphMonitor(Monitor):
                         self.violate(f'C02/slave-before-master:{state}{self.local_shutdown(state)}',
                                      f'{inst.nick} entered {state} at vt={vt(w)} although its Master {mnick} has '
                                      f'never published it (Master published {sorted(self.entered.get(mkey, ()))})')
+                elif state in ('DISTRIBUTION', 'OPERATION', 'CONCILIATION') and minst and minst.alive:
+                    # ... and in the current cycle of the Master (since its last ELECTION), or in the previous one if
+                    # the new cycle has just begun (its ELECTION publication may still be in flight)
+                    cycles = self.cycles.get(mkey, [])
+                    self.count('slave_entries_checked_against_master_cycle')
+                    recent = any(state in cycles[i][1] for i in range(len(cycles))
+                                 if i == len(cycles) - 1 or cycles[i + 1][0] > w.now - TICK)
+                    if cycles and not recent:
+                        self.violate(f'C02/slave-before-master-in-this-cycle:{state}',
+                                     f'{inst.nick} entered {state} at vt={vt(w)} although its Master {mnick} has not '
+                                     f'published it since its last ELECTION (at vt='
+                                     f'{round(cycles[-1][0] - BASE_TIME, 3)}: {sorted(cycles[-1][1])})')
 
     def local_shutdown(self, state):
         """ Mechanism qualifier: SHUTTING_DOWN entered in a run where supvisors_failure_strategy=SHUTDOWN is
